@@ -45,6 +45,9 @@ CHECKS = {
  "C14": ("fault_enumeration", "bounded-exhaustive enumeration of hostile ClientHello shapes and raw inputs (E4) and of connection drops at every handshake step (E3) against the real listener",
          "Each case (ALPN lists over the library prefixes with malformed / truncated / oversized / duplicated / reordered values, raw non-TLS bytes, honest handshakes cut after the k-th client write or read) is sent to a real InterceptingListener on a loopback socket, with and without a base TLS configuration; Accept runs under recover and must not panic, its error must be temporary, and an honest Dial on the same listener must authenticate afterwards; closing the base listener must give a non-temporary error.",
          "Stalling peers are outside the quantifier. The application-supplied registration wrapper is length-guarded (the aead dependency's short-ciphertext panic is not attributed to the library).", "6/C14", "E4+E3"),
+ "C15": ("exploration", "stateless exhaustive schedule exploration (E2) of concurrent real Accept calls under a controlled scheduler with harness seams; free-running -race companion",
+         "Handler threads each run one real InterceptingListener.Accept over real loopback connections; the scheduler owns the points where handshakes can touch shared state (every storage call, entry/exit of the fetch and certificate functions, the base Accept) and every schedule within the preemption bound (2, thorough 3) is executed for every pair (thorough: also triples) of client kinds and every option-slice shape; each connection's server result, reported client state and protocol list, client-side answer and created record must equal its outcome when handled alone.",
+         "Blocks between scheduling points are treated as atomic; unsynchronised accesses inside them are the -race companion's (sampling). Clients are storage-independent by construction.", "6/C15", "E2+R"),
  "C16": ("exploration", "bounded-exhaustive input product (E4) through real handshakes, judged on the connection object the application receives",
          "7 client-state shapes x 8 extra-ALPN lists through the real Dial and through a hand-built client whose offered list is known exactly (plus forged state signatures): on every authenticated connection ClientState() must equal what was dialled, ClientNextProtos() must equal the offered list in order minus certificate-preference entries, and the returned slice must be a copy; forged state must never yield a connection.",
          "Empty and absent state are identified. Oversized states that cannot authenticate are counted, not judged.", "6/C16", "E4"),
